@@ -38,10 +38,13 @@ def pairs():
 
 
 def decode(b: bytes) -> str:
+    """What a text-mode read of these bytes yields: UTF-8 with Latin-1 fallback (the scanner's
+    documented behaviour under a UTF-8 locale) and universal-newline translation."""
     try:
-        return b.decode("utf-8")
+        t = b.decode("utf-8")
     except UnicodeDecodeError:
-        return b.decode("latin-1")
+        t = b.decode("latin-1")
+    return t.replace("\r\n", "\n").replace("\r", "\n")
 
 
 def analyse(lexer_name, text):
@@ -138,8 +141,11 @@ def do_analyze(ex, idx, op):
 
     def fn():
         box["r"] = analyse(lexer_name, text)
+    saved = w.extra_budget
+    w.extra_budget += 8 * CONTENTS[cid].get("steps", 0) + 250 * len(CONTENTS[cid]["bytes"])
     obs = w.run_process(fn, op["nonce"], w.base, set_policy=ex.set_policy, walk_policy=ex.walk_policy,
                         new_process=False)
+    w.extra_budget = saved
     if obs["outcome"] == "ok":
         got = box["r"]
     elif obs["outcome"] == "internal_error":
